@@ -71,7 +71,9 @@ def createNewHeader (c : HdrCfg) (info : Extracted) : Except HeaderErr Text := d
 
 /-- `create_header` -/
 def createHeader (c : HdrCfg) (info : Extracted) (header : Text) : Except HeaderErr Text := do
-  if header.isEmpty then createNewHeader c info
+  if header.isEmpty then
+    -- `--merge-copyrights` also merges the requested lines among themselves
+    createNewHeader c (if c.merge then { info with cpr := mergeLines info.cpr } else info)
   else
     let existing := extractRaw header
     if !(existing.lic.all c.parses) then throw .commentCreate
@@ -165,8 +167,8 @@ inductive AnnotateOut where
   | failed (e : HeaderErr)  -- nothing written, exit status 1
   deriving Repr
 
-/-- the text-level body of `add_header_to_file`: what is written back (characters, after
-    newline translation on write) -/
+/-- the text-level body of `add_header_to_file` (after a leading byte order mark has been set
+    aside, see `annotateFile`): what is written back (characters, after newline translation on write) -/
 def annotateText (c : HdrCfg) (replace skipExisting : Bool) (info : Extracted) (text : Text) : AnnotateOut :=
   if skipExisting && containsReuseInfo c.parses text then .skipped
   else
@@ -176,5 +178,21 @@ def annotateText (c : HdrCfg) (replace skipExisting : Bool) (info : Extracted) (
     match out with
     | .error e => .failed e
     | .ok t => .written (if le == ['\n'] then t else Py.replace t ['\n'] le)
+
+/-- U+FEFF: how a UTF-8 byte order mark arrives in text decoded as `utf-8` -/
+def bomChar : Char := Char.ofNat 0xFEFF
+
+def AnnotateOut.mapWritten (f : Text → Text) : AnnotateOut → AnnotateOut
+  | .written t => .written (f t)
+  | o => o
+
+/-- `add_header_to_file` at text level: a leading byte order mark is not part of the text; it
+    stays the first character of what is written -/
+def annotateFile (c : HdrCfg) (replace skipExisting : Bool) (info : Extracted) (text : Text) : AnnotateOut :=
+  match text with
+  | ch :: rest =>
+    if ch == bomChar then (annotateText c replace skipExisting info rest).mapWritten (bomChar :: ·)
+    else annotateText c replace skipExisting info text
+  | [] => annotateText c replace skipExisting info []
 
 end Model
